@@ -470,7 +470,8 @@ pub fn gen_layers(rng: &mut Rng, o: &GenOpts) -> Vec<WLayer> {
 		let keys: Vec<String> = ["kind", "name", "ref", "lanes", "oneway", "height", "name:de", "", "k\u{e9}y"].iter().map(|s| s.to_string()).collect();
 		let mut features = vec![];
 		for fi in 0..nf {
-			let gtype = if o.unknown_geom && rng.chance(0.1) { *rng.pick(&[0u64, 4, 7]) } else { rng.range(1, 3) };
+			// UNKNOWN = 0 is the only further value the specification's enum has
+			let gtype = if o.unknown_geom && rng.chance(0.1) { 0 } else { rng.range(1, 3) };
 			let mut props: Vec<(String, WVal)> = vec![];
 			if let Some(idf) = &o.id_field {
 				if rng.chance(0.9) {
